@@ -210,6 +210,19 @@ MUTANTS: List[Dict] = [
     M("lower4-prune-expr", "breaking", AT, "        exclude = (ast.Pass, ast.Continue, ast.Break)\n", "        exclude = (ast.Pass, ast.Continue, ast.Break, ast.Expr)\n", ["LOWER-4"]),
     M("lower5-one-walk", "breaking", AT, '            if type(block) is RegionBlock and block.kind == "branch":\n                continue\n', '            if type(block) is RegionBlock and block.kind in ("branch", "tail"):\n                continue\n', ["LOWER-5"]),
     M("lower1-new-arm", "breaking", AT, "        elif isinstance(node, ast.Call):\n            # Handle function calls.", "        elif isinstance(node, ast.Subscript):\n            node.value = self.handle_expression(node.value)\n            node.slice = self.handle_expression(node.slice)\n            return node\n        elif isinstance(node, ast.Call):\n            # Handle function calls.", ["LOWER-1"]),
+    # ------------------------------------------------ second batch
+    M("ctrl10-keep-old-name", "breaking", BB, "                    if v == target:\n                        new_branch_value_table[k] = new_target\n", "                    if v == target:\n                        new_branch_value_table[k] = target\n", ["CTRL-10"]),
+    M("ctrl10-drop-kept", "breaking", BB, "            else:\n                # copy all old values\n                for k, v in old_branch_value_table.items():\n                    if v == target:\n                        new_branch_value_table[k] = v\n", "", ["CTRL-10"]),
+    M("ctrl10-diff-reversed", "breaking", BB, "                diff = set(jump_targets).difference(self._jump_targets)\n", "                diff = set(self._jump_targets).difference(jump_targets)\n", ["CTRL-10"]),
+    M("ctrl10-table-not-replaced", "breaking", BB, "            _jump_targets=jump_targets,\n            branch_value_table=new_branch_value_table,\n", "            _jump_targets=jump_targets,\n", ["CTRL-10"]),
+    M("lower7-return-var", "breaking", AT, '            return [ast.Return(ast.Name("__scfg_return_value__"))]', '            return [ast.Return(ast.Name("__scfg_return_val__"))]', ["LOWER-7"]),
+    M("lower8-no-decrement", "breaking", AT, "            self.loop_cont_counter -= 1\n", "", ["LOWER-8"]),
+    M("lower8-name-after-pop", "breaking", AT, '            loop_continue = f"__scfg_loop_cont_{self.loop_cont_counter}__"\n            self.loop_cont_counter -= 1\n', '            self.loop_cont_counter -= 1\n            loop_continue = f"__scfg_loop_cont_{self.loop_cont_counter}__"\n', ["LOWER-8"]),
+    M("lower9-drop-last", "breaking", AT, "                return block.tree[:-1] + [if_node]\n", "                return block.tree[:-2] + [if_node]\n", ["LOWER-9"]),
+    M("lower9-keep-test", "breaking", AT, "                return block.tree[:-1] + [if_node]\n", "                return block.tree + [if_node]\n", ["LOWER-9"]),
+    M("total5-swap-args", "breaking", SCFG, "            self.insert_SyntheticTail(solo_tail_name, tails, exits)\n            return solo_tail_name, solo_exit_name\n\n        if len(tails) >= 2 and len(exits) >= 2:", "            self.insert_SyntheticTail(solo_tail_name, exits, tails)\n            return solo_tail_name, solo_exit_name\n\n        if len(tails) >= 2 and len(exits) >= 2:", ["TOTAL-5"]),
+    M("total5-exit-from-tails", "breaking", SCFG, "            self.insert_SyntheticExit(solo_exit_name, [solo_tail_name], exits)\n", "            self.insert_SyntheticExit(solo_exit_name, tails, exits)\n", ["TOTAL-5"]),
+    M("total5-wrong-return", "breaking", SCFG, "            self.insert_SyntheticExit(solo_exit_name, tails, exits)\n            return solo_tail_name, solo_exit_name\n", "            self.insert_SyntheticExit(solo_exit_name, tails, exits)\n            return solo_tail_name, next(iter(exits))\n", ["TOTAL-5"]),
     # ------------------------------------------------ benign
     M("ok-rename-locals", "benign", TR, None, None, [], "rename locals of loop_restructure_helper (computed edit)"),
     M("ok-sorted-key", "benign", TR, "    for name in sorted(loop):\n", "    for name in sorted(loop, key=str):\n", []),
